@@ -395,6 +395,7 @@ def _evaluate(case) -> Outcome:
     labels = set()
     ref_sheets, grids = make_grids(sheets, spec, labels)
     blame = "+".join(sorted(spec["noise"])) if len(spec["noise"]) <= 1 else "several"
+    blank_rows = "noise:blank-rows" in labels
 
     def reference(sh, stem):
         extra = {"fallback_form_name": stem} if stem is not None else None
@@ -455,10 +456,11 @@ def _evaluate(case) -> Outcome:
                 continue
             if base not in payloads:
                 try:
+                    # the text containers carry the blank rows too (rows without any cell), not the other kinds of noise
                     if base == "md":
-                        payloads[base] = render.to_md(form).encode("utf-8")
+                        payloads[base] = render.md_of_sheets(ref_sheets if blank_rows else sheets).encode("utf-8")
                     elif base == "csv":
-                        payloads[base] = render.to_csv(form).encode("utf-8")
+                        payloads[base] = render.csv_of_sheets(ref_sheets if blank_rows else sheets).encode("utf-8")
                     elif base == "xlsx":
                         payloads[base] = grids_to_xlsx(grids)
                     else:
@@ -471,13 +473,13 @@ def _evaluate(case) -> Outcome:
                 continue
             status, res, used = deliver(cont, payload, how, explicit, stem, tmp, args)
             noisy = base in ("xlsx", "xls")
-            sr, rr_ = ref_for(noisy, used)
+            sr, rr_ = ref_for(noisy or blank_rows, used)
             out.label(f"container:{cont}", f"delivery:{how}", "file_type:explicit" if explicit else "file_type:implicit")
             if used is not None and used != "data":
                 out.label("stem:other")
             pairs.add((cont, how))
             where = f"{cont}|{how}|{'explicit' if explicit else 'implicit'}"
-            tagbase = f"{base}|{blame if noisy else '-'}"
+            tagbase = f"{base}|{blame if noisy else 'blank-rows' if blank_rows else '-'}"
             _compare(out, status, res, sr, rr_, where, tagbase, base, used, form)
     finally:
         shutil.rmtree(tmp, ignore_errors=True)
